@@ -178,7 +178,7 @@ int main(int argc, char** argv) {
     begin_case(s);
     ND_CASE_GUARD();
     Rng r(s);
-    mg::GenOpts go; go.min_trees = 1; go.max_trees = 4;
+    mg::GenOpts go; go.min_trees = 1; go.max_trees = 4; go.flex_chance = 0.15;
     std::string mdesc;
     mjModel* m = sup.get(r, go, &mdesc, nullptr, 150);
     if (!m) { end_case(); continue; }
